@@ -46,9 +46,21 @@ SeqRange(s) == {s[i] : i \in 1..Len(s)}
 
 \* ---------- abstract state ----------
 \* st = [models |-> [sid -> SUBSET Asg], unk |-> set of sids, added |-> [sid -> set of terms]]
-InitState(maxId) == [models |-> [i \in 0..maxId |-> {}], unk |-> {}, added |-> [i \in 0..maxId |-> {}], live |-> {}]
+\*       opaque |-> sids whose answers are not judged for correctness any more (add_replacement was used: the caller
+\*                  asserted a replacement the constraints do not imply) but still for isolation,
+\*       last |-> [sid -> set of <<query key, answer>>] since the last operation ON that sid (C14 isolation)]
+InitState(maxId) == [models |-> [i \in 0..maxId |-> {}], unk |-> {}, added |-> [i \in 0..maxId |-> {}], live |-> {},
+                     opaque |-> {}, last |-> [i \in 0..maxId |-> {}]]
 
-Mutating == {"add", "simplify", "downsize", "merge", "combine", "split", "branch", "pickle", "new"}
+Mutating == {"add", "simplify", "downsize", "merge", "combine", "split", "branch", "pickle", "new", "add_replacement"}
+\* operations after which the answers of the solver they are called ON may legitimately change
+SelfChanging == {"add", "simplify", "downsize", "add_replacement"}
+Queries == {"satisfiable", "eval", "batch_eval", "min", "max", "solution", "is_true", "is_false"}
+QKey(ev) == <<ev.call, ev.e, ev.es, ev.n, ev.v, ev.signed, ev.extra>>
+\* answers that are functions of the solver's state (eval only when it listed everything it found)
+Determinate(ev) == ev.exc = "" /\ (ev.call \in {"satisfiable", "min", "max", "solution", "is_true", "is_false"}
+                                   \/ (ev.call \in {"eval", "batch_eval"} /\ Len(ev.ret) < ev.n))
+Answer(ev) == IF ev.call \in {"eval", "batch_eval"} THEN {ev.ret[i] : i \in 1..Len(ev.ret)} ELSE {ev.ret[1]}
 
 \* conjuncts of a constraint list, And-split one level recursively
 RECURSIVE Conjuncts(_)
@@ -56,7 +68,7 @@ Conjuncts(t) == IF t[1] = "And" THEN UNION {Conjuncts(t[4][i]) : i \in 1..Len(t[
 ConjunctsAll(ts) == UNION {Conjuncts(ts[i]) : i \in 1..Len(ts)}
 TrueT == <<"BoolV", "", <<1>>, <<>>>>
 
-Effect(Asg, st, ev) ==
+Effect0(Asg, st, ev) ==
   LET s == ev.s  M == st.models[s] IN
   IF ev.exc # "" /\ ev.call \in Mutating
     THEN [st EXCEPT !.unk = @ \cup {s} \cup SeqRange(ev.new)]      \* may or may not have been applied
@@ -92,7 +104,24 @@ Effect(Asg, st, ev) ==
                                    ELSE st.models[i]],
                      !.live = @ \cup SeqRange(ev.new),
                      !.unk = IF s \in st.unk THEN @ \cup SeqRange(ev.new) ELSE @]
+    [] ev.call = "add_replacement" -> [st EXCEPT !.opaque = @ \cup {s}]
     [] OTHER -> st
+
+Effect(Asg, st, ev) ==
+  LET st1 == Effect0(Asg, st, ev)
+      s == ev.s
+      \* ids created from an opaque solver are opaque too
+      st2 == IF s \in st.opaque /\ Len(ev.new) > 0 THEN [st1 EXCEPT !.opaque = @ \cup SeqRange(ev.new)] ELSE st1
+  IN IF ev.call \in SelfChanging THEN [st2 EXCEPT !.last[s] = {}]
+     ELSE IF ev.call \in Queries /\ Determinate(ev) THEN [st2 EXCEPT !.last[s] = @ \cup {<<QKey(ev), Answer(ev)>>}]
+     ELSE st2
+
+\* C14: between two identical queries on one solver nothing was done TO that solver (whatever happened to its
+\* branches, parents, merge partners): the answers must be the same
+FailIsolation(st, ev) ==
+  IF ev.call \in Queries /\ Determinate(ev)
+     /\ \E p \in st.last[ev.s] : p[1] = QKey(ev) /\ p[2] # Answer(ev)
+  THEN {"isolation"} ELSE {}
 
 \* ---------- allowed outcomes ----------
 ExcOK(ev) == ev.exc \in {"", "UnsatError"}
@@ -214,6 +243,8 @@ FailFault(Asg, st, ev) ==
 Failing(Asg, st, ev) ==
   IF ev.s \in st.unk THEN {}
   ELSE IF ev.fired THEN FailFault(Asg, st, ev)
-  ELSE IF ev.mode = "approx" THEN FailApprox(Asg, st, ev)
-  ELSE FailExact(Asg, st, ev)
+  ELSE FailIsolation(st, ev) \cup
+       (IF ev.s \in st.opaque THEN (IF ev.exc \in {"", "UnsatError", "NoneAnswer"} THEN {} ELSE {"exc"})
+        ELSE IF ev.mode = "approx" THEN FailApprox(Asg, st, ev)
+        ELSE FailExact(Asg, st, ev))
 =============================================================================
